@@ -140,11 +140,24 @@ impl FileDesc {
         {
             // Calculate the source block length of Raptor / RaptorQ
 
-            let (_, _, _, nb_blocks) = partition::block_partitioning(
+            let (a_large, _, _, nb_blocks) = partition::block_partitioning(
                 oti.maximum_source_block_length as u64,
                 object.transfer_length,
                 oti.encoding_symbol_length as u64,
             );
+
+            // Maximum number of source symbols per block supported by the codec
+            // (RFC 6330 K'_max for RaptorQ, RFC 5053 K_max for Raptor)
+            let max_symbols_per_block: u64 = match oti.fec_encoding_id {
+                oti::FECEncodingID::RaptorQ => 56403,
+                _ => 8192,
+            };
+            if a_large > max_symbols_per_block {
+                return Err(FluteError::new(format!(
+                    "Source blocks of {} symbols are not supported, the maximum is {}, your object is incompatible with the FEC parameters of your OTI",
+                    a_large, max_symbols_per_block
+                )));
+            }
 
             if oti.fec_encoding_id == oti::FECEncodingID::RaptorQ {
                 if oti.scheme_specific.is_none() {
